@@ -27,7 +27,13 @@ import (
 //	  metricdata.Aggregation (as pipeline.produce does). op: <attr>:f<bits> (measure) | c (collect) | n (a new
 //	  aggregator with the same configuration takes over the destination). point (in destination slot order):
 //	  <attr> <scale> <posOff> <pos,> <negOff> <neg,> <zero> <count> <min bits|-> <max bits|-> <sum bits>;
-//	  attr 0 = the overflow attribute set of the cardinality limiter.
+//	  attr 0 = the overflow attribute set of the cardinality limiter. After a collection has been logged, every
+//	  slice of every collected point is overwritten with garbage up to its capacity (a consumer may do what it
+//	  likes with collected data): later collections must not change.
+//	hcoll <gen> <f|i> <d|c> <limit> <bounds,> <noMinMax><noSum> | <op>... => <C <n> <point>*n>...
+//	  the same for the explicit-bucket histogram (integer values and boundaries). op: <attr>:<value> | c |
+//	  n:<noMinMax><noSum> (a new aggregator with other flags takes over the destination).
+//	  point: <attr> <bounds,> <counts,> <count> <sum> <min|-> <max|->
 func TestVerifC07Agg(t *testing.T) {
 	out := vOpen(t)
 	defer out.Close()
@@ -48,6 +54,8 @@ func TestVerifC07Agg(t *testing.T) {
 			c07GenHist(out, r)
 		case 3, 4, 5, 6:
 			c07GenColl(out, r)
+		case 7, 8:
+			c07GenHColl(out, r)
 		default:
 			c07GenExpo(out, r)
 		}
@@ -75,6 +83,8 @@ func c07Replay(out *vOut, f []string) {
 		c07RunExpo(out, f[1], int32(ms), int32(sc), bits)
 	case "coll":
 		c07ReplayColl(out, f)
+	case "hcoll":
+		c07ReplayHColl(out, f)
 	case "hist":
 		shift, _ := strconv.Atoi(f[3])
 		var vals []int64
@@ -648,6 +658,17 @@ func c07RunColl(out *vOut, gen string, delta bool, maxSize, maxScale int32, limi
 					dp.NegativeBucket.Offset, c07Csv(dp.NegativeBucket.Counts),
 					dp.ZeroCount, dp.Count, mn, mx, math.Float64bits(dp.Sum))
 			}
+			for i := range dps { // the consumer scribbles over everything it was handed
+				for _, c := range [][]uint64{dps[i].PositiveBucket.Counts, dps[i].NegativeBucket.Counts} {
+					c = c[:cap(c)]
+					for k := range c {
+						c[k] = 0xdead0000 + uint64(k)
+					}
+				}
+				dps[i].PositiveBucket.Offset, dps[i].NegativeBucket.Offset = 12345, -12345
+				dps[i].Sum, dps[i].Count, dps[i].ZeroCount, dps[i].Scale = 1e300, 777, 777, 77
+				dps[i].Min, dps[i].Max = metricdata.NewExtrema(-1e300), metricdata.NewExtrema(1e300)
+			}
 		case 'm':
 			fmt.Fprintf(&in, " %d:f%016x", op.attr, op.bits)
 			set := attribute.NewSet(attribute.Int("k", op.attr))
@@ -775,4 +796,176 @@ func c07GenColl(out *vOut, r *vRand) {
 		}
 	}
 	c07RunColl(out, gen, delta, maxSize, maxScale, limit, noMinMax, noSum, ops)
+}
+
+// ---------------------------------------------------------------- explicit buckets: collection into a re-used destination
+
+type c07HOp struct {
+	kind     byte // 'm', 'c', 'n'
+	attr     int
+	val      int64
+	nmm, nsm bool
+}
+
+func c07ReplayHColl(out *vOut, f []string) {
+	lim, _ := strconv.Atoi(f[4])
+	var ops []c07HOp
+	for _, t := range f[8:] {
+		switch {
+		case t == "c":
+			ops = append(ops, c07HOp{kind: 'c'})
+		case strings.HasPrefix(t, "n:"):
+			ops = append(ops, c07HOp{kind: 'n', nmm: t[2] == '1', nsm: t[3] == '1'})
+		default:
+			i := strings.Index(t, ":")
+			a, err := strconv.Atoi(t[:i])
+			if err != nil {
+				panic(err)
+			}
+			v, err := strconv.ParseInt(t[i+1:], 10, 64)
+			if err != nil {
+				panic(err)
+			}
+			ops = append(ops, c07HOp{kind: 'm', attr: a, val: v})
+		}
+	}
+	if f[2] == "i" {
+		c07RunHColl[int64](out, f[1], "i", f[3] == "d", lim, c07ParseCsv(f[5]), f[6][0] == '1', f[6][1] == '1', ops)
+	} else {
+		c07RunHColl[float64](out, f[1], "f", f[3] == "d", lim, c07ParseCsv(f[5]), f[6][0] == '1', f[6][1] == '1', ops)
+	}
+}
+
+func c07RunHColl[N int64 | float64](out *vOut, gen, num string, delta bool, limit int, bounds []int64, noMinMax, noSum bool, ops []c07HOp) {
+	fb := make([]float64, len(bounds))
+	for i, b := range bounds {
+		fb[i] = float64(b)
+	}
+	h := newHistogram[N](fb, noMinMax, noSum, limit, dropReservoir[N])
+	ctx := context.Background()
+	var dest metricdata.Aggregation
+	var in, obs strings.Builder
+	t := "c"
+	if delta {
+		t = "d"
+	}
+	fmt.Fprintf(&in, "hcoll %s %s %s %d %s %d%d |", gen, num, t, limit, c07Csv(bounds), c07B(noMinMax), c07B(noSum))
+	for _, op := range ops {
+		switch op.kind {
+		case 'n':
+			fmt.Fprintf(&in, " n:%d%d", c07B(op.nmm), c07B(op.nsm))
+			h = newHistogram[N](fb, op.nmm, op.nsm, limit, dropReservoir[N])
+		case 'm':
+			fmt.Fprintf(&in, " %d:%d", op.attr, op.val)
+			h.measure(ctx, N(op.val), attribute.NewSet(attribute.Int("k", op.attr)), nil)
+		case 'c':
+			in.WriteString(" c")
+			var n int
+			if delta {
+				n = h.delta(&dest)
+			} else {
+				n = h.cumulative(&dest)
+			}
+			dps := dest.(metricdata.Histogram[N]).DataPoints
+			if n != len(dps) {
+				fmt.Fprintf(&obs, " C!%d", n)
+			}
+			fmt.Fprintf(&obs, " C %d", len(dps))
+			for _, dp := range dps {
+				id := int64(-1)
+				if dp.Attributes.Equals(&overflowSet) {
+					id = 0
+				} else if v, ok := dp.Attributes.Value("k"); ok {
+					id = v.AsInt64()
+				}
+				sb := make([]string, len(dp.Bounds))
+				for i, b := range dp.Bounds {
+					sb[i] = c07Int(b)
+				}
+				mn, mx := "-", "-"
+				if v, ok := dp.Min.Value(); ok {
+					mn = c07Int(float64(v))
+				}
+				if v, ok := dp.Max.Value(); ok {
+					mx = c07Int(float64(v))
+				}
+				fmt.Fprintf(&obs, " %d %s %s %d %s %s %s", id, c07Join(sb), c07Csv(dp.BucketCounts), dp.Count,
+					c07Int(float64(dp.Sum)), mn, mx)
+			}
+			for i := range dps { // the consumer scribbles over everything it was handed
+				b := dps[i].Bounds[:cap(dps[i].Bounds)]
+				for k := range b {
+					b[k] = -4242 - float64(k)
+				}
+				c := dps[i].BucketCounts[:cap(dps[i].BucketCounts)]
+				for k := range c {
+					c[k] = 0xdead0000 + uint64(k)
+				}
+				dps[i].Sum, dps[i].Count = 424242, 777
+				dps[i].Min, dps[i].Max = metricdata.NewExtrema(N(-4242)), metricdata.NewExtrema(N(4242))
+			}
+		}
+	}
+	out.Line("%s =>%s", in.String(), obs.String())
+}
+
+func c07GenHColl(out *vOut, r *vRand) {
+	delta := r.Intn(3) != 0
+	nb := vPick(r, []int{0, 1, 2, 3, 5, 8})
+	bounds := make([]int64, 0, nb)
+	cur := int64(r.Intn(40) - 20)
+	for i := 0; i < nb; i++ {
+		bounds = append(bounds, cur)
+		cur += 1 + int64(r.Intn(10))
+	}
+	if r.Intn(6) == 0 {
+		for i := range bounds {
+			j := r.Intn(i + 1)
+			bounds[i], bounds[j] = bounds[j], bounds[i]
+		}
+	}
+	limit := 0
+	if r.Intn(4) == 0 {
+		limit = 1 + r.Intn(4)
+	}
+	nattr := 1 + r.Intn(4)
+	gen := "cyc"
+	var ops []c07HOp
+	cycles := 2 + r.Intn(4)
+	for c := 0; c < cycles; c++ {
+		var ms []c07HOp
+		for a := 1; a <= nattr; a++ {
+			if r.Intn(4) == 0 {
+				continue
+			}
+			nv := 1 + r.Intn(4)
+			for k := 0; k < nv; k++ {
+				v := int64(r.Intn(80) - 40)
+				if nb > 0 && r.Intn(2) == 0 {
+					v = bounds[r.Intn(nb)] + int64(r.Intn(3)) - 1
+				}
+				ms = append(ms, c07HOp{kind: 'm', attr: a, val: v})
+			}
+		}
+		for i := range ms {
+			j := r.Intn(i + 1)
+			ms[i], ms[j] = ms[j], ms[i]
+		}
+		ops = append(ops, ms...)
+		ops = append(ops, c07HOp{kind: 'c'})
+		switch r.Intn(6) {
+		case 0:
+			ops = append(ops, c07HOp{kind: 'c'})
+			gen = "cyc2"
+		case 1, 2: // another aggregator with other flags takes over the destination (F40 class)
+			ops = append(ops, c07HOp{kind: 'n', nmm: r.Bool(), nsm: r.Bool()})
+			gen = "cycn"
+		}
+	}
+	num := vPick(r, []string{"f", "f", "i"})
+	if num == "i" {
+		c07RunHColl[int64](out, gen, "i", delta, limit, bounds, r.Intn(3) == 0, r.Intn(3) == 0, ops)
+	} else {
+		c07RunHColl[float64](out, gen, "f", delta, limit, bounds, r.Intn(3) == 0, r.Intn(3) == 0, ops)
+	}
 }
